@@ -582,6 +582,13 @@ class Interp:
     def call_closure(self, clo, args, kwargs, node, top=False):
         if self.depth > self.MAX_DEPTH:
             raise OutOfSubset('inlining depth exceeded at %s (recursion needs a contract)' % clo.name, node)
+        va = clo.node.args.vararg if not isinstance(clo.node, ast.Lambda) else None
+        if top and va is not None and va.arg in kwargs and not args:
+            # verification harness: parameters are given by name, the *args tuple under its own name
+            kwargs = dict(kwargs)
+            extra = kwargs.pop(va.arg)
+            pos = [p.arg for p in clo.node.args.posonlyargs + clo.node.args.args]
+            args = [kwargs.pop(p) for p in pos] + list(extra)
         env = self.bind_args(clo, args, kwargs, node)
         fr = Frame(clo.name, [env] + list(clo.envs), clo.globs, clo.clsname, clo.node)
         self.frames.append(fr)
